@@ -8,7 +8,9 @@ PLAN = {
     'C06': dict(level='proof', engines=[]),
     'C07': dict(level='proof', engines=[]),
     'C08': dict(level='proof', engines=[]),
+    'C09': dict(level='proof', engines=['chordnative']),
     'C10': dict(level='proof', engines=['chordre']),
+    'C11': dict(level='proof', engines=['chordnative']),
     'C14': dict(level='proof', engines=[]),
     'C15': dict(level='proof', engines=['frames'], assumptions=['A3', 'A4', 'A5', 'A6', 'A7']),
 }
